@@ -71,7 +71,8 @@ class Plugin:
     GEN = ["Ssdp", "Types", "DateMatchers"]
     DEPENDS = ["C16", "C03", "C08"]
     CLAUSES = {1: "roundtrip"}
-    SHARD = 100
+    SHARD = 60
+    SEARCH_CASES = 400
     RULE = ("histories of decode_ssdp_packet calls over 1..5 datagrams (built by build_ssdp_packet from a start line and a "
             "header map, or raw/mutated bytes) from IPv4 / scoped / unscoped IPv6 senders and ports, with mutations of earlier "
             "results in between; non-trivial = a built datagram with >= 2 headers decoded at least twice; distinct = distinct "
@@ -189,7 +190,7 @@ class Plugin:
         return {"dgrams": dgrams, "steps": steps}
 
     def generate(self, rng, tier):
-        n = 2500 if tier == "thorough" else 260
+        n = 2500 if tier == "thorough" else 200
         cases = [self._case(rng) for _ in range(n)]
         if tier == "thorough":
             # exceed every lru_cache size with distinct datagrams, then revisit the first ones
